@@ -302,7 +302,7 @@ pub fn run(ctx: &Ctx, replay: Option<&J>, chunked: bool) -> CheckResult {
         return CheckResult { evidence: ev, rule, assumptions, violations: vs };
     }
     if !chunked {
-        let cases = ctx.n(80_000, 3_000_000);
+        let cases = ctx.n(2_000_000, 60_000_000);
         let (ev, vs) = pt_run(
             ctx,
             "c05",
@@ -346,7 +346,7 @@ pub fn run(ctx: &Ctx, replay: Option<&J>, chunked: bool) -> CheckResult {
         );
         return CheckResult { evidence: ev, rule, assumptions, violations: vs };
     }
-    let cases = ctx.n(40_000, 1_200_000);
+    let cases = ctx.n(1_000_000, 30_000_000);
     let strat = || {
         (
             prop::collection::vec(seg_strategy(), 1..7),
